@@ -178,6 +178,25 @@ fn c04_two_commits(dir: &str) -> bool {
     true
 }
 
+/// C14: a failing value-tree (leaf) page write before the switch-over must surface as Err, poison
+/// the handle and make the next commit be refused.
+fn c14_ln_write_fails(dir: &str) -> bool {
+    let _ = std::fs::remove_dir_all(dir);
+    let db: Db = Nomt::open(opts(dir, false)).unwrap();
+    commit(&db, vec![(key(1), Some(vec![1]))]);
+    nomt::verif_api::io_faults::fail_writes_to(Some("/ln"));
+    let s = db.begin_session(SessionParams::default());
+    let mut w = vec![];
+    for i in 10..40u8 {
+        w.push((key(i), KeyReadWrite::Write(Some(vec![i; 4]))));
+    }
+    let r = s.finish(w).unwrap().commit(&db);
+    nomt::verif_api::io_faults::fail_writes_to(None);
+    let poisoned = db.is_poisoned();
+    println!("commit with failing LN writes returned {:?}, poisoned={}", r.as_ref().map(|_| ()).map_err(|e| e.to_string()), poisoned);
+    r.is_err() && poisoned
+}
+
 fn main() {
     let a: Vec<String> = std::env::args().collect();
     let (name, dir) = (a[1].as_str(), a[2].as_str());
@@ -186,6 +205,7 @@ fn main() {
         "c12_overlay_commit" => c12_overlay_commit(dir, false),
         "c12_overlay_try_commit" => c12_overlay_commit(dir, true),
         "c14_ht_write_fails" => c14_ht_write_fails(dir),
+        "c14_ln_write_fails" => c14_ln_write_fails(dir),
         "c04_crash_post_meta" => c04_crash_post_meta(dir),
         "c04_reopen" => c04_reopen(dir),
         "c04_two_commits" => c04_two_commits(dir),
